@@ -203,6 +203,35 @@ HOStepFailing(h, k, o) ==
                  (IF o.err = "none" /\ ~NoData(cc) /\ ~Degenerate(cc) /\ cl.rev /\ ~o.hasrev THEN {"rev_missing"} ELSE {})
 
 \* ---------------------------------------------------------------------------------
+\* World sessions (added; prefix HW).  The outcome of a call depends on its arguments AS
+\* THEY ARE AT THE TIME OF THE CALL and on nothing else that happened in the process:
+\* not on what an earlier call saw in the same data object (the caller may have changed a
+\* writable base under a read-only view in between), not on calls on other objects or
+\* through other entry points, not on what the caller did to results it was handed.
+\*   session w == [objs : Seq(Seq(Int)) the data objects as first created, steps : Seq(step), ...]
+\*   step      == [op : {"call", "mutate", "replace", "scribble"}, slot, x, mode, b, hasmin, min,
+\*                 hasmax, max, rev, entry]
+\*      call     : entry(objs[slot], bin specification, limits)      (x unused)
+\*      mutate   : the caller overwrites the buffer behind object `slot` with x (same object)
+\*      replace  : the caller drops object `slot` and creates a new one holding x
+\*      scribble : the caller overwrites every array the previous call returned
+\* contents of object s after the first k steps
+RECURSIVE HWContents(_, _, _)
+HWContents(w, s, k) ==
+    IF k = 0 THEN w.objs[s]
+    ELSE LET t == w.steps[k] IN
+         IF t.op \in {"mutate", "replace"} /\ t.slot = s THEN t.x ELSE HWContents(w, s, k - 1)
+HWCase(w, k) == LET t == w.steps[k] IN
+    [x |-> HWContents(w, t.slot, k - 1), mode |-> t.mode, b |-> t.b,
+     hasmin |-> t.hasmin, min |-> t.min, hasmax |-> t.hasmax, max |-> t.max]
+\* clauses violated by what call number k of session w returned (o): those of a fresh world
+HWStepFailing(w, k, o) ==
+    IF w.steps[k].op # "call" THEN {}
+    ELSE LET cc == HWCase(w, k) IN
+         Failing(cc, o) \cup
+         (IF o.err = "none" /\ ~NoData(cc) /\ ~Degenerate(cc) /\ w.steps[k].rev /\ ~o.hasrev THEN {"rev_missing"} ELSE {})
+
+\* ---------------------------------------------------------------------------------
 \* Scale (added).  The law that makes large inputs decidable from small ones: the
 \* histogram of a concatenation is the sum of the histograms of the parts over the same
 \* bins, and every reverse-index slice is the stable merge of the parts' slices (indices of
